@@ -3,7 +3,7 @@ use crate::api::fmt_lym;
 use crate::log::Log;
 use crate::model::lunar_seq::lunar_seq;
 use crate::model::terms::terms;
-use crate::util::guard;
+use crate::util::{guard, par_range};
 use crate::{Cfg, Meta};
 use std::collections::BTreeMap;
 use tyme4rs::tyme::lunar::LunarYear;
@@ -12,7 +12,7 @@ fn in_domain(y: i64) -> bool {
   (27..=9998).contains(&y) && !(238..=240).contains(&y)
 }
 
-pub fn run(_cfg: &Cfg) -> (Log, Meta) {
+pub fn run(cfg: &Cfg) -> (Log, Meta) {
   let mut log = Log::new();
   let seq = lunar_seq();
   let t = terms();
@@ -142,13 +142,16 @@ pub fn run(_cfg: &Cfg) -> (Log, Meta) {
       Err(msg) => log.violate(format!("C04/leap-table/{:04}", y), "LunarYear", format!("{}", y), format!("panic: {}", msg), "no panic".into()),
     }
   }
+  let nh = cfg.tier.pick(30_000usize, 600_000usize);
+  log.merge(par_range(nh, 100, |i, l| crate::monitor::month_history::month_history("C04", i, cfg.seed ^ 0x04, 27, 9998, l)));
+  log.floor("history.answers_judged", cfg.tier.pick(200_000, 4_000_000));
   log.floor("windows.checked", 9_000);
   log.floor("windows.with_13_lunations", 2_000);
   log.floor("lunations.checked", 100_000);
   log.floor("lunations.without_a_major_term", 2_000);
   log.floor("years.leap_years_checked", 2_000);
   let meta = Meta {
-    rule: "exhaustive over the stated domain: every winter-solstice-to-winter-solstice window whose two lunar years lie in 27..9998 and outside 238..240; each lunation of the window is labelled by the rule (solstice month = 11; with 13 lunations the first one holding no major term is the leap month and repeats the previous number) from the library's own new-moon days and calendar-making major-term days, and compared with the library's label; leap month and month count of every fully covered year compared as well. Non-trivial = 13-lunation windows and lunations holding two major terms (counted). Windows outside the domain are counted, not judged.".into(),
+    rule: format!("exhaustive over the stated domain: every winter-solstice-to-winter-solstice window whose two lunar years lie in 27..9998 and outside 238..240; each lunation of the window is labelled by the rule (solstice month = 11; with 13 lunations the first one holding no major term is the leap month and repeats the previous number) from the library's own new-moon days and calendar-making major-term days, and compared with the library's label; leap month and month count of every fully covered year compared as well. Non-trivial = 13-lunation windows and lunations holding two major terms (counted). Windows outside the domain are counted, not judged. Then {} {} (the enumeration being the one the rule has just been applied to).", nh, crate::monitor::month_history::RULE_TEXT),
     assumptions: vec!["inputs of the rule are the library's own new-moon days (LunarMonth::get_first_julian_day) and SolarTerm::get_cursory_julian_day; their astronomy is C05's subject".into()],
     exhaustive: true,
   };
